@@ -203,14 +203,17 @@ def check_fit_guards(ctx, replay, out):
             ctx.mismatch("fitGuards:term-guard-true-but-hangs", replay, st, g)
     h = g.get("hyp")
     if isinstance(h, dict):
-        # `delete_total` (Props/C11.lean): with its hypotheses true, replace_step with the empty slice returned
+        # `delete_total` / `insertInline_total` (Props/C11.lean): with their hypotheses true, replace_step with the empty
+        # slice / a closed slice of leaf nodes returned
+        which = "delete_total" if h.get("empty") else "insertInline_total"
         if g.get("det") and h.get("fillers") and h.get("valid") and h.get("attrs") and not h.get("topTextblock") \
-                and replay["from"] <= replay["to"]:
-            ctx.count("fit guards: delete_total hypotheses hold")
+                and (h.get("empty") or h.get("wrapOK")) and replay["from"] <= replay["to"]:
+            ctx.count("fit guards: %s hypotheses hold" % which)
             if st != "ok":
-                ctx.mismatch("fitGuards:delete-hypotheses-true-but-not-returned", replay, st, g)
+                ctx.mismatch("fitGuards:%s-hypotheses-true-but-not-returned" % which, replay, st, g)
         else:
-            ctx.count("fit guards: delete_total hypotheses fail (%s)" % ",".join(k for k in sorted(h) if h[k] != (k != "topTextblock")))
+            ctx.count("fit guards: %s hypotheses fail (%s)" % (which, ",".join(
+                k for k in sorted(h) if k != "empty" and h[k] != (k != "topTextblock"))))
 
 
 def tie_divergence_example(ctx, reqs, metas):
